@@ -100,3 +100,61 @@ Proof.
       specialize (F1 _ Ib). specialize (F2 _ Ia). lia. }
     subst. f_equal. apply IH; auto. eapply Permutation_cons_inv; eauto.
 Qed.
+
+(** NoDup over appends *)
+Lemma NoDup_app_intro {A} (l1 l2 : list A) :
+  NoDup l1 -> NoDup l2 -> (forall x, In x l1 -> ~ In x l2) -> NoDup (l1 ++ l2).
+Proof.
+  induction l1 as [|a l1 IH]; simpl; intros H1 H2 H; auto.
+  inversion H1; subst. constructor.
+  - intros Hin. apply in_app_or in Hin. destruct Hin as [Hin|Hin]; [contradiction|].
+    apply (H a); auto.
+  - apply IH; auto.
+Qed.
+
+Lemma NoDup_app_disj {A} (l1 l2 : list A) :
+  NoDup (l1 ++ l2) -> forall x, In x l1 -> ~ In x l2.
+Proof.
+  induction l1 as [|a l1 IH]; simpl; intros H x Hx; [contradiction|].
+  inversion H; subst. destruct Hx as [<-|Hx].
+  - intros Hin. apply H2. apply in_or_app; auto.
+  - apply IH; auto.
+Qed.
+
+Lemma NoDup_app_remove_l {A} (l1 l2 : list A) : NoDup (l1 ++ l2) -> NoDup l2.
+Proof. induction l1 as [|a l1 IH]; simpl; auto. intros H; inversion H; auto. Qed.
+
+Lemma NoDup_app_remove_r {A} (l1 l2 : list A) : NoDup (l1 ++ l2) -> NoDup l1.
+Proof.
+  induction l1 as [|a l1 IH]; simpl; intros H; [constructor|]. inversion H; subst.
+  constructor; auto. intros Hin; apply H2; apply in_or_app; auto.
+Qed.
+
+Lemma NoDup_remove_mid {A} (l1 l2 l3 : list A) : NoDup (l1 ++ l2 ++ l3) -> NoDup (l1 ++ l3).
+Proof.
+  intros H. apply (@NoDup_app_remove_l _ l2).
+  eapply Permutation_NoDup; [|exact H].
+  rewrite !app_assoc. apply Permutation_app_tail. apply Permutation_app_comm.
+Qed.
+
+Lemma NoDup_flat_map_prefix {A B} (f g : A -> list B) (l : list A) :
+  (forall a, In a l -> exists r, f a = g a ++ r) -> NoDup (flat_map f l) -> NoDup (flat_map g l).
+Proof.
+  induction l as [|a t IH]; simpl; intros Hf H; [constructor|].
+  destruct (Hf a (or_introl eq_refl)) as [r Hr]. rewrite Hr, <- app_assoc in H.
+  assert (Hinc : forall x, In x (flat_map g t) -> In x (flat_map f t)).
+  { intros x Hx. apply in_flat_map in Hx. destruct Hx as (b & Hb & Hx). apply in_flat_map.
+    exists b. split; auto. destruct (Hf b (or_intror Hb)) as [r' ->]. apply in_or_app; auto. }
+  apply NoDup_app_intro.
+  - apply NoDup_remove_mid in H. eapply NoDup_app_remove_r; eauto.
+  - apply IH; [intros b Hb; apply Hf; right; auto|].
+    apply NoDup_app_remove_l in H. apply NoDup_app_remove_l in H. exact H.
+  - intros x Hx Hx2. apply NoDup_remove_mid in H.
+    apply (NoDup_app_disj _ _ H x Hx). auto.
+Qed.
+
+Lemma flat_map_ext_in {A B} (f g : A -> list B) l :
+  (forall x, In x l -> f x = g x) -> flat_map f l = flat_map g l.
+Proof.
+  induction l as [|a l IH]; simpl; intros H; auto. rewrite H, IH; auto.
+Qed.
